@@ -22,11 +22,13 @@ OBLIGATIONS = [
        bounds='every year, N in -366..366', sym='year and N'),
     ob('shift_days_pm60', ['SHIFTD', 'NMAX=60'], enc=['shift', 'unpack_cand', '__get_ndom', 'ass_bi383', 'bi383_next'], bounds='every date 1902..2098, N in -60..60 (N != 0)'),
     ob('shift_days_far_300_366', ['SHIFTD', 'NMAX=366', 'NMIN=300'], enc=['shift'], bounds='every date 1902..2098, |N| in 300..366 (the walk crosses up to 13 month ends, incl. the neighbouring year\'s February)',
-       unwindset=dict(UW, **{'shift.*': 15}), timeout=900, mem_gb=8),
+       unwindset=dict(UW, **{'shift.*': 15}), timeout=3000, mem_gb=8, tiers=('thorough',)),
     ob('shift_days_pm366', ['SHIFTD', 'NMAX=366'], enc=['shift'], bounds='every date 1902..2098, N in -366..366', tiers=('thorough',), timeout=2400, mem_gb=12,
        unwindset=dict(UW, **{'shift.*': 15})),
     ob('shift_bdays_10', ['SHIFTB', 'BMAX=10'], enc=['shift', 'ymd_get_wday', 'echs_shift_bvalue', 'echs_shift_neg_p', 'echs_shift_inv_p'],
-       bounds='every date 1902..2098, 0..10 business days, both directions, plain and B+/B- forms, incl. 0B and -0B'),
+       bounds='every date 1902..2098, 0..10 business days, both directions, plain and B+/B- forms, incl. 0B and -0B', tiers=('thorough',), timeout=3000),
+    ob('shift_bdays_3', ['SHIFTB', 'BMAX=3'], enc=['shift', 'ymd_get_wday', 'echs_shift_bvalue', 'echs_shift_neg_p', 'echs_shift_inv_p'],
+       bounds='every date 1902..2098, 0..3 business days, both directions, plain and B+/B- forms, incl. 0B and -0B'),
     ob('shift_bdays_30', ['SHIFTB', 'BMAX=30'], enc=['shift'], bounds='every date, 0..30 business days', tiers=('thorough',), timeout=2400, mem_gb=12,
        unwindset=dict(UW, **{'harness.*': 32})),
 ]
